@@ -40,6 +40,7 @@ func c03Spaces(tier string) []pairLeg {
 		add("E1", EditStates(1, 150))
 		add("deep", Deep(false))
 		add("mixed", Mixed())
+		add("large", Large().Filter(func(v V) bool { return ref.Nodes(v) <= 20 }))
 	}
 	return legs
 }
